@@ -156,6 +156,12 @@ fn build(w: &Value) -> Built {
     for (k, t) in threads.iter().enumerate() {
         let mut lw: Vec<Option<i64>> = vec![None; nglob];
         for op in t["ops"].as_array().into_iter().flatten() {
+            if op[0] == "suspend" && k == 0 && threads.len() >= 2 && (op[1].as_i64().unwrap_or(0) / 7) % 4 == 2 {
+                let g = op[1].as_u64().unwrap() as usize % nglob;
+                let v = op[2].as_i64().unwrap();
+                written[g].push(v);
+                lw[g] = Some(v);
+            }
             if op[0] == "set" || op[0] == "boxed" {
                 let g = op[1].as_u64().unwrap() as usize % nglob;
                 let v = op[2].as_i64().unwrap();
@@ -163,7 +169,6 @@ fn build(w: &Value) -> Built {
                 lw[g] = Some(v);
             }
         }
-        let _ = k;
         for g in 0..nglob {
             if let Some(v) = lw[g] {
                 last_write[g].push(v);
@@ -240,6 +245,32 @@ fn build(w: &Value) -> Built {
                     ("(let ((gd (lock-acquire! mtx))) (set-box! cnt (+ 1 (unbox cnt))) (lock-release! gd) 0)".to_string(), "0".into())
                 }
                 "gc" => ("(begin (#%gc-collect) 0)".to_string(), "0".into()),
+                "suspend" => {
+                    // main suspends one of its threads, keeps stopping the world
+                    // (allocation, collection, assignment of a global) and resumes it:
+                    // a suspended thread is blocked by the script's own logic, the
+                    // collections and assignments of the others are not
+                    let n = threads.len();
+                    if k != 0 || n < 2 {
+                        ("0".to_string(), "0".into())
+                    } else {
+                        let victim = 1 + (a as usize) % (n - 1);
+                        let g = (a as usize) % nglob;
+                        let v = op[2].as_i64().unwrap_or(0);
+                        let inner = match (a / 7) % 4 {
+                            0 => format!("(alloc {})", 3 + a % 9),
+                            1 => "(begin (#%gc-collect) 0)".to_string(),
+                            2 => format!("(let ((lt (lin-b 0 {g} {v}))) (set! g{g} {v}) (lin-e lt {v}) 0)", g = g, v = v),
+                            _ => format!("(+ (work {}) (valloc 3))", 5 + a % 20),
+                        };
+                        let val = match (a / 7) % 4 {
+                            0 => sum_to(3 + a % 9),
+                            3 => sum_to(5 + a % 20) + 3,
+                            _ => 0,
+                        };
+                        (format!("(begin (thread-suspend t{victim}) (let ((sv {inner})) (thread-resume t{victim}) sv))", victim = victim, inner = inner), val.to_string())
+                    }
+                }
                 "tls" => (
                     format!("(let ((t (make-tls (box {}))) ) (alloc 4) (set-tls! t (box (+ 1 (unbox (get-tls t))))) (valloc 3) (unbox (get-tls t)))", a),
                     (a + 1).to_string(),
@@ -334,7 +365,7 @@ fn gen_workload(rng: &mut Rng, prop: &str, thorough: bool) -> Value {
     // forked state runs on its parent's OS thread, which the monitors' model of
     // one script thread per simulated thread does not represent, and the
     // unchanged tree blocks in un-hooked code on that path (DESIGN.md §12, C15-5)
-    let all = ["work", "alloc", "valloc", "set", "read", "send", "lock", "gc", "tls", "nested", "hof", "shuffle", "shuffle"];
+    let all = ["work", "alloc", "valloc", "set", "read", "send", "lock", "gc", "tls", "nested", "hof", "shuffle", "shuffle", "suspend"];
     let mut kinds: Vec<&str> = all.to_vec();
     rng.shuffle(&mut kinds);
     kinds.truncate(rng.range(2, 7) as usize);
@@ -369,9 +400,10 @@ fn gen_workload(rng: &mut Rng, prop: &str, thorough: bool) -> Value {
                 "hof" => rng.range(2, 10),
                 "tls" => rng.range(1, 50),
                 "shuffle" => rng.below(4),
+                "suspend" => rng.below(1000),
                 _ => rng.below(3),
             } as i64;
-            if kind == "set" || kind == "boxed" {
+            if kind == "set" || kind == "boxed" || kind == "suspend" {
                 uniq += 1;
                 ops.push(json!([kind, amount, uniq]));
             } else {
@@ -407,7 +439,13 @@ fn deadlock_signature(desc: &str) -> String {
         let site = st.split('@').nth(1).unwrap_or("").replace("vm.", "");
         if st.starts_with("spinning@") {
             spinners.push(site);
-        } else if st.starts_with("blocked@") && site != "park" {
+        } else if st.starts_with("blocked@") && site == "park" {
+            // parked and published: stopped for a world stop (a victim); parked
+            // without having published itself: a stopper waits for it forever
+            if !vmh::is_published(tid) {
+                unpublished.push("parked-unpublished".to_string());
+            }
+        } else if st.starts_with("blocked@") {
             if vmh::is_published(tid) {
                 blocked_published.push(site);
             } else {
@@ -621,7 +659,7 @@ impl Scenario for Threads {
     }
 
     fn rule(&self) -> String {
-        "each evaluation = one forked run of a generated program: main + 1-7 script threads (spawn-native-thread), each a seeded sequence of 1-10 operations out of {computation, box allocation, vector allocation, set! of a shared global with a unique value, checked read of a shared global, channel send, mutex section, explicit collection, thread-local storage, nested spawn+join, allocation inside map}; main receives every message through map and joins in a seeded order; forced full collections at rate {0,1/16,1/4,1}, JIT on/off; the token scheduler decides at every instruction dispatch and inside every handshake window (publish, after-finish, before-retract, stop/resume, scan begin/end, heap lock taken); non-trivial = at least 2 script threads; distinct = distinct (workload, event trace)".into()
+        "each evaluation = one forked run of a generated program: main + 1-7 script threads (spawn-native-thread), each a seeded sequence of 1-10 operations out of {computation, box allocation, vector allocation, set! of a shared global with a unique value, checked read of a shared global, channel send, mutex section, explicit collection, thread-local storage, nested spawn+join, allocation inside map, main suspending one of its threads while it allocates / collects / assigns a global and resuming it}; main receives every message through map and joins in a seeded order; forced full collections at rate {0,1/16,1/4,1}, JIT on/off; the token scheduler decides at every instruction dispatch and inside every handshake window (publish, after-finish, before-retract, stop/resume, scan begin/end, heap lock taken); non-trivial = at least 2 script threads; distinct = distinct (workload, event trace)".into()
     }
     fn assumptions(&self) -> Vec<String> {
         vec![
